@@ -14,6 +14,7 @@ import (
 	"sync"
 	"time"
 
+	"github.com/TarsCloud/TarsGo/tars"
 	"github.com/TarsCloud/TarsGo/tars/protocol"
 	"github.com/TarsCloud/TarsGo/tars/transport"
 )
@@ -69,9 +70,17 @@ func (timeoutErr) Timeout() bool   { return true }
 func (timeoutErr) Temporary() bool { return true }
 
 type recProto struct {
-	mu   sync.Mutex
-	pkgs [][]byte
+	mu     sync.Mutex
+	pkgs   [][]byte
+	client bool
 }
+
+// the framing functions the real endpoints use: the server's tars.Protocol.ParsePackage and the client's
+// protocol.TarsProtocol.ParsePackage (both are thin wrappers of protocol.TarsRequest on the unchanged tree)
+var (
+	c07ServerProto = tars.VerifNewProtocol(nil, nil, false)
+	c07ClientProto = &protocol.TarsProtocol{}
+)
 
 func (r *recProto) add(pkg []byte) {
 	r.mu.Lock()
@@ -82,7 +91,12 @@ func (r *recProto) Invoke(ctx context.Context, pkg []byte) []byte {
 	r.add(pkg)
 	return []byte{0, 0, 0, 4}
 }
-func (r *recProto) ParsePackage(b []byte) (int, int) { return protocol.TarsRequest(b) }
+func (r *recProto) ParsePackage(b []byte) (int, int) {
+	if r.client {
+		return c07ClientProto.ParsePackage(b)
+	}
+	return c07ServerProto.ParsePackage(b)
+}
 func (r *recProto) InvokeTimeout(pkg []byte) []byte  { return []byte{0, 0, 0, 4} }
 func (r *recProto) GetCloseMsg() []byte              { return []byte{0, 0, 0, 4} }
 func (r *recProto) DoClose(ctx context.Context)      {}
@@ -103,7 +117,7 @@ type c07Case struct {
 func c07Run(c *c07Case) []Failure {
 	protocol.SetMaxPackageLength(c.Max)
 	conn := &scriptConn{chunks: cloneChunks(fromB(c.Chunks))}
-	rec := &recProto{}
+	rec := &recProto{client: c.Side == "client"}
 	switch c.Side {
 	case "server-pool1":
 		transport.VerifServerRecv(rec, &transport.TarsServerConf{Proto: "tcp", Address: "127.0.0.1:0", MaxInvoke: 1, QueueCap: 1000, IdleTimeout: time.Hour, ReadTimeout: time.Second}, conn)
